@@ -21,7 +21,7 @@ from sa import regexast, sigdata
 from sa.sigdata import implied_atoms
 from sa import strterm as T
 from rules.C10 import (_const_regex, armor_tree, flags_of, unarmor_call, verdict_for_label, _receiver, _own_params, _returned_entry,   # noqa: F401
-                       _ascii_oracle, _consumes, require_traceable_label, _stored_entry, _is_group_ref)
+                       _ascii_oracle, _consumes, require_traceable_label, _stored_entry, _is_group_ref, regex_calls)
 
 from rules.C10 import noinline  # noqa: E402,F401
 
@@ -520,13 +520,20 @@ def cleartext_reader(rep, prog, M):
     uf = A.methods.get('ascii_unarmor')
     up = _own_params(uf)[0]
     restored = set()
+    subjects = set()
     for s in Interp(prog, Scenario(args={up: Sym(up, types={'str'}, nonnull=True)}, oracle=_ascii_oracle, inline=noinline)).run(uf):
+        for meth, args in regex_calls(s):
+            if args:
+                subjects.add(args[0])
         if s.raised is None:
             v = _stored_entry(s, 'cleartext')
             if v is not None:
                 n = T.parse_term(v)
                 if not (n is not None and _is_group_ref(n, 'cleartext')):
                     restored.add(v)
+    rep.check(subjects == {up}, 'C11.2', 'Armorable.ascii_unarmor', 'armor expression applied to %s' % sorted(subjects),
+              'the armor expression is applied to the text as received, so that the cleartext group is a slice of it: rewriting the whole input first '
+              '(line endings, blanks) changes the signed text that is read back', where=uf.where, expected=up, found=sorted(subjects))
     rep.check(not restored, 'C11.2', 'Armorable.ascii_unarmor', 'cleartext handed on %s' % (sorted(restored)[:1] or 'as matched'),
               'the signed text is returned exactly as it stands between the header and the signature armor', where=uf.where, found=sorted(restored)[:2])
     rep.check(ok, 'C11.2', 'PGPMessage.parse', 'dash_unescape calls %s' % found[:2],
